@@ -33,6 +33,25 @@ Theorem C15_assignable_geos :
   forall tbl g, In g (assignable tbl) <-> exists e, In (g, e) tbl /\ is_x_fixed e = false.
 Proof. exact assignable_spec. Qed.
 
+(* aggregates over any index set, in the order fixed by the chosen geo index: on every date the aggregated series is
+   the sum of the cells of the geos the index puts at the chosen positions; the aggregated share is the sum of their shares
+   (a share = the geo's mean over the sum of all means); the index is accepted iff it is a non-empty list of assignable geos *)
+Theorem C15_aggregate_series_is_the_sum_of_the_indexed_rows :
+  forall rows gi idx k, (k < length (dates_of rows))%nat ->
+    (nth k (aggregate_series rows gi idx) 0 == qsum (map (fun i => cell rows (nth i gi 0%Z) (nth k (dates_of rows) 0%Z)) idx))%Q.
+Proof. exact aggregate_series_spec. Qed.
+Theorem C15_aggregate_series_has_one_entry_per_date :
+  forall rows gi idx, length (aggregate_series rows gi idx) = length (dates_of rows).
+Proof. exact aggregate_series_length. Qed.
+Theorem C15_aggregate_share_is_the_sum_of_the_indexed_shares :
+  forall rows gi idx,
+    aggregate_share rows gi idx = qsum (map (fun i => (geo_mean rows (nth i gi 0%Z) / qsum (map (geo_mean rows) (geos_of rows)))%Q) idx).
+Proof. exact aggregate_share_spec. Qed.
+Theorem C15_geo_index_accepted_iff_nonempty_and_assignable :
+  forall tbl gi, set_geo_index tbl gi = Accept gi <-> (gi <> [] /\ forall g, In g gi -> In g (assignable tbl)).
+Proof. exact set_geo_index_spec. Qed.
+Print Assumptions C15_aggregate_series_is_the_sum_of_the_indexed_rows.
+Print Assumptions C15_geo_index_accepted_iff_nonempty_and_assignable.
 Print Assumptions C15_one_row_per_geo.
 Print Assumptions C15_columns_distinct_and_chronological.
 Print Assumptions C15_rows_are_the_geos_by_decreasing_mean.
